@@ -255,7 +255,7 @@ func c20InscCheck(c c20Insc) (fs []rep.Finding) {
 		args.EnrichedArgs = &bscript.EnrichedInscriptionArgs{OpReturnData: parts}
 	}
 	cls := fmt.Sprintf("ct=%s,data=%s", lenClass(c.CT), lenClass(c.Data))
-	var firstScript, firstWas []byte // the script the first call produced, kept as returned and as a copy
+	var firstScript, firstWas []byte     // the script the first call produced, kept as returned and as a copy
 	for round := 0; round < 3; round++ { // twice: the second call must not see leftovers of the first; then the specific-ordinal entry point
 		tx := bt.NewTx()
 		if round == 1 {
@@ -333,7 +333,7 @@ func lenClass(n int) string {
 
 func init() {
 	p := register(&Prop{ID: "C20", Level: "exploration",
-		Rule: "exhaustive product: 4 flow pairs (list->accept, list->accept2Dummies, bid->accept, bid2Dummies->accept2Dummies) x seller/buyer keys (2x2 quick, 3x3 thorough) x funding UTXOs all locked to the buyer's key / each to a key of its own / the second one being another output of the ordinal's transaction x prices {1,2,546,1000,1000000} x ordinal UTXO of 1 (and 2) satoshis, plain or inscription script (also continued by OP_RETURN and a well-formed tail of 0..3 bytes) x funding sets of 2..4 UTXOs whose values are placed around the thresholds (price, price+1, reference-fee boundary -2..+3, ample) with the UTXO exceeding the price at every position x 3 fee quotes; the partially signed tx crosses a serialisation boundary. Oracle for every completed transaction: each input accepted by Execute(WithTx, WithForkID, WithAfterGenesis) against its spent output; listing flows keep the seller's output byte-identical at the index of the seller's input; FIFO satoshi assignment puts the ordinal's first satoshi in the buyer's script; inputs-outputs >= reference fee of the actual size. Inscriptions: content-type lengths {0,1,75,76,255,256} x payload lengths {0,1,75,76,255,256,65535,65536} x enrichment {none,1,2 parts} x prefix with/without spare capacity, plus one- and two-byte payloads and content types with every first byte value, inscribed twice through Inscribe and once through InscribeSpecificOrdinal (ordinal 3 of the second input; the separating output must hold the satoshis in front of it): ParseInscription returns the same content type, data and 25-byte prefix. distinct_nontrivial = distinct completed transactions + inscription cases",
+		Rule: "exhaustive product: 4 flow pairs (list->accept, list->accept2Dummies, bid->accept, bid2Dummies->accept2Dummies) x seller/buyer keys (2x2 quick, 3x3 thorough) x funding UTXOs all locked to the buyer's key / each to a key of its own / the second one being another output of the ordinal's transaction x prices {1,2,546,1000,1000000} x ordinal UTXO of 1 (and 2) satoshis, plain or inscription script (also continued by OP_RETURN and a well-formed tail of 0..3 bytes) x funding sets of 2..4 UTXOs whose values are placed around the thresholds (price, price+1, reference-fee boundary -2..+3, ample) with the UTXO exceeding the price at every position, and sets in which no UTXO exceeds the price although two or three together do x 3 fee quotes; the partially signed tx crosses a serialisation boundary. Oracle for every completed transaction: each input accepted by Execute(WithTx, WithForkID, WithAfterGenesis) against its spent output; listing flows keep the seller's output byte-identical at the index of the seller's input; FIFO satoshi assignment puts the ordinal's first satoshi in the buyer's script; inputs-outputs >= reference fee of the actual size. Inscriptions: content-type lengths {0,1,75,76,255,256} x payload lengths {0,1,75,76,255,256,65535,65536} x enrichment {none,1,2 parts} x prefix with/without spare capacity, plus one- and two-byte payloads and content types with every first byte value, inscribed twice through Inscribe and once through InscribeSpecificOrdinal (ordinal 3 of the second input; the separating output must hold the satoshis in front of it): ParseInscription returns the same content type, data and 25-byte prefix. distinct_nontrivial = distinct completed transactions + inscription cases",
 	})
 	sF := NewSpace(p, "flows", c20Check)
 	sI := NewSpace(p, "inscriptions", c20InscCheck)
@@ -366,6 +366,16 @@ func init() {
 										sets = append(sets, []uint64{big, 1}, []uint64{1, big}, []uint64{big, ex + 2}, []uint64{price, big, 7}, []uint64{3, price, big}, []uint64{big, price + 1, 5, 2})
 									} else {
 										sets = append(sets, []uint64{1, 1, big}, []uint64{1, 1, price, big}, []uint64{1, 1, ex + 2, price}, []uint64{2, 3, big}, []uint64{1, 1, big, 1})
+									}
+									// funding sets in which NO UTXO exceeds the price although several together do (the flows
+									// refuse them today; a flow that starts to combine UTXOs must still route the ordinal right)
+									if ex == 0 || ex == 5_000_000 {
+										half := price/2 + 1
+										if flow == 0 || flow == 2 {
+											sets = append(sets, []uint64{price, price}, []uint64{price, price, price + ex}, []uint64{half, half, price}, []uint64{half, half, half, half})
+										} else {
+											sets = append(sets, []uint64{1, 1, price, price}, []uint64{1, 1, half, half, price}, []uint64{1, 1, price, price, price})
+										}
 									}
 									for _, fs := range sets {
 										for _, ordSats := range []uint64{1, 2} {
